@@ -47,6 +47,8 @@ STEP_HEAD = '''proof {
         assert forall|k: int| n + 1 <= k < cs_all.len() implies cs_all[k] == BidiClass::NSM by { if k > n + 1 { assert(cs_all[n + 1] == BidiClass::NSM); } }
     }
     n = n + 1;
+    assert(cs_all[0] == first);
+    assert(cs_all[n] == bidi_of(c));
 }'''
 
 POST = '''proof {
@@ -67,7 +69,7 @@ proof {
     assert(Seq::<BidiClass>::empty().push(first) =~= seq![first]);
 }''' % CS_ALL
     rtl = Fn(
-        'is_valid_rtl_label', ret='r',
+        'is_valid_rtl_label', ret='r', attrs=['#[verifier::loop_isolation(false)]'],
         requires=[('REQ.rtl_first', 'prev == BidiClass::R || prev == BidiClass::AL')],
         ensures=[('C09.rtl', 'r == bidi_impl_lang(seq![prev].add(class_seq(iter_seq(it))))')],
         rewrites=[('W.into_iter', r'(?<=\bin )it\b', 'vx_into_iter(it)', 1)],
@@ -81,7 +83,6 @@ proof {
                 ('C09.rtl_mix', '!(en && an)'),
                 ('C09.rtl_nsm_prev', 'nsm ==> rtl_end(prev)'),
             ],
-            ensures=[('C09.rtl_done', 'IteratorSpec::remaining(&vx_it).len() == 0')],
             decreases='IteratorSpec::decrease(&vx_it).unwrap()',
             head=STEP_HEAD.replace('    n = n + 1;\n', '''    let p0 = cs_all.take(1 + n);
     let p1 = cs_all.take(1 + n + 1);
@@ -103,7 +104,7 @@ proof {
         )},
     )
     ltr = Fn(
-        'is_valid_ltr_label', ret='r',
+        'is_valid_ltr_label', ret='r', attrs=['#[verifier::loop_isolation(false)]'],
         requires=[('REQ.ltr_first', 'prev == BidiClass::L')],
         ensures=[('C09.ltr', 'r == bidi_impl_lang(seq![prev].add(class_seq(iter_seq(it))))')],
         rewrites=[('W.into_iter', r'(?<=\bin )it\b', 'vx_into_iter(it)', 1)],
@@ -115,7 +116,6 @@ proof {
                 ('C09.ltr_allowed', 'forall|i: int| 0 <= i < 1 + n ==> ltr_allowed(#[trigger] cs_all[i])'),
                 ('C09.ltr_nsm_prev', 'nsm ==> ltr_end(prev)'),
             ],
-            ensures=[('C09.ltr_done', 'IteratorSpec::remaining(&vx_it).len() == 0')],
             decreases='IteratorSpec::decrease(&vx_it).unwrap()',
             head=STEP_HEAD,
             post=POST,
@@ -123,11 +123,26 @@ proof {
     )
     return Module('bidi', 'precis-profiles/src/bidi.rs', [
         bidi_enum(repo),
+        Text('pub assume_specification[ <BidiClass as PartialEq>::eq ](a: &BidiClass, b: &BidiClass) -> (r: bool) ensures r == (*a == *b);'),
         # table lookup with default L: verified by Kani against UnicodeData 16.0.0 (ledger tbl_bidi)
         Fn('bidi_class_cp', ret='r', mode='sig', ensures=[('LEDGER.tbl_bidi', 'r == t_bidi(cp)')]),
         Fn('bidi_class', ret='r', ensures=[('C09.bidi_class', 'r == bidi_of(c)')]),
+        # A.bind: the closure and the result of find are let-bound so that the proof can name them
         Fn('has_rtl', ret='r',
-           rewrites=[('A.closure', r'\|c\|\s*(matches!\((?:[^()]|\([^()]*\))*\))', r'|c: char| -> (b: bool) ensures b == is_rtl_class(bidi_of(c)) { \1 }', 1)],
+           rewrites=[('A.bind_closure',
+                      r'label\s*\.find\(\|c\|\s*(matches!\((?:[^()]|\([^()]*\))*\))\)\s*\.is_some\(\)',
+                      r"""{ let vx_p = |c: char| -> (b: bool) ensures b == is_rtl_class(bidi_of(c)) { \1 };
+    let vx_x = label.find(vx_p);
+    proof {
+        assert forall|i: int| 0 <= i < label@.len() implies (#[trigger] pat_matches(vx_p, label@[i])) == is_rtl_class(bidi_of(label@[i])) by {
+            axiom_pat_fn(vx_p, label@[i]);
+        }
+        match vx_x {
+            None => { assert forall|i: int| 0 <= i < label@.len() implies !is_rtl_class(#[trigger] bidi_of(label@[i])) by { assert(!pat_matches(vx_p, label@[i])); } },
+            Some(pos) => { let k = choose|k: int| 0 <= k < label@.len() && pos as int == boff(label@, k) && pat_matches(vx_p, label@[k]); assert(is_rtl_class(bidi_of(label@[k]))); },
+        }
+    }
+    vx_x.is_some() }""", 1)],
            ensures=[('C09.has_rtl', 'r == has_rtl_spec(label@)')]),
         Fn('satisfy_bidi_rule', ret='r',
            ensures=[('C09.sound', 'r && label@.len() > 0 ==> rfc5893(class_seq(label@))'),
